@@ -383,6 +383,7 @@ pub fn run(ctx: &mut Ctx, replay: Option<&str>) {
             None => ctx.notes.push(format!("replay file {} holds no C15 chain", path)),
         }
     } else {
+        direct_streams(ctx);
         let n = ctx.tier.pick(300, 8000);
         for i in 0..n {
             let mut r = ctx.rng.fork(i as u64);
@@ -457,5 +458,91 @@ pub fn run(ctx: &mut Ctx, replay: Option<&str>) {
     }
     if let Some(c) = confirmed.last() {
         ctx.sample(c.key());
+    }
+}
+
+/// narrowing judged on the implementation alone: (a) a credential with hundreds of selectively disclosable members, narrowed
+/// to a few, then narrowed again with a selection that spells out EVERY member name (true / false) or only the kept ones;
+/// (b) ONE holder built from a presentation serving several narrowing calls in a row (equal numbers of claims, other claims).
+/// Each narrowing result must carry the same disclosures as the same selection made directly on the issued SD-JWT.
+fn direct_streams(ctx: &mut Ctx) {
+    use crate::keys::KeyId;
+    let now = crate::imp::now();
+    let same = |a: &Option<Vec<String>>, b: &Option<Vec<String>>| match (a, b) {
+        (Some(x), Some(y)) => sorted(x.clone()) == sorted(y.clone()),
+        _ => false,
+    };
+    let discl = |h: &HolderRes, k: usize, fmt: Fmt| h.calls.get(k).and_then(|c| c.out.ok()).and_then(|p| split(fmt, p)).map(|p| p.disclosures);
+    for (wi, n) in (if ctx.tier == Tier::Quick { vec![70usize, 300] } else { vec![33, 64, 65, 70, 300, 1000] }).into_iter().enumerate() {
+        for fmt in [Fmt::Compact, Fmt::Json] {
+            let mut m: serde_json::Map<String, Value> = (0..n).map(|i| (format!("m{:04}", i), if i % 25 == 3 { json!({"in": i, "x": [i]}) } else { json!(i) })).collect();
+            m.insert("iss".into(), json!("https://issuer.example"));
+            m.insert("exp".into(), json!(now + 100000));
+            let claims = Value::Object(m);
+            let a = IssueArgs { claims: claims.clone(), strategy: if wi % 2 == 0 { Strategy::Top } else { Strategy::All }, holder: None, decoy: wi % 2 == 1, fmt, key: KeyId::Hmac1, alg: Some("HS256".into()), queue: None };
+            let issued = match issue(&a).out.ok() {
+                Some(s) => s.clone(),
+                None => continue,
+            };
+            ctx.impl_calls += 1;
+            let keep = [format!("m{:04}", 1), format!("m{:04}", n - 1), format!("m{:04}", 3)];
+            let d1: serde_json::Map<String, Value> = keep.iter().map(|k| (k.clone(), json!(true))).collect();
+            let p1 = holder_session(&issued, fmt, &[PresentArgs::plain(d1.clone())]);
+            let p1_text = match p1.calls.first().and_then(|c| c.out.ok()) {
+                Some(p) => p.clone(),
+                None => continue,
+            };
+            let all_named: serde_json::Map<String, Value> = (0..n).map(|i| { let k = format!("m{:04}", i); let v = json!(k == keep[0] || k == keep[2]); (k, v) }).collect();
+            let few: serde_json::Map<String, Value> = [(keep[0].clone(), json!(true)), (keep[2].clone(), json!({}))].into_iter().collect();
+            for (name, d2) in [("every-member-named(true/false)", all_named), ("only-the-kept-ones-named", few), ("same-selection-again", d1.clone())] {
+                let direct = holder_session(&issued, fmt, &[PresentArgs::plain(d2.clone())]);
+                let narrowed = holder_session(&p1_text, fmt, &[PresentArgs::plain(d2.clone())]);
+                ctx.impl_calls += 4;
+                ctx.evaluations += 1;
+                ctx.oracle_checks += 1;
+                ctx.count("stream.wide_narrowing_direct");
+                let case = json!({"wide_narrowing": {"members": n, "fmt": fmt.name(), "strategy": if wi % 2 == 0 { "top" } else { "all" }, "first_selection": d1, "second_selection": name}});
+                let (x, y) = (discl(&direct, 0, fmt), discl(&narrowed, 0, fmt));
+                if x.is_some() && same(&x, &y) {
+                    ctx.nontrivial(&case);
+                } else {
+                    ctx.violation("oracle", "present", &format!("narrowing a presentation of a {}-member credential ({}) differs from selecting directly", n, name), case,
+                                  json!({"narrowed": narrowed.calls.first().map(|c| c.out.class()), "disclosures": y.map(|v| v.len())}), json!({"direct": direct.calls.first().map(|c| c.out.class()), "disclosures": x.map(|v| v.len())}));
+                }
+            }
+        }
+    }
+    // (b)
+    for (k, fmt) in [Fmt::Compact, Fmt::Json, Fmt::Json, Fmt::Compact].into_iter().enumerate() {
+        let claims = json!({"iss": "https://issuer.example", "exp": now + 100000, "a": 1, "b": {"x": 1, "y": [1, 2]}, "c": "three", "d": [4, {"e": 5}], "f": null, "g": true});
+        let a = IssueArgs { claims: claims.clone(), strategy: if k % 2 == 0 { Strategy::All } else { Strategy::Top }, holder: None, decoy: k >= 2, fmt, key: KeyId::IssuerEc, alg: None, queue: None };
+        let issued = match issue(&a).out.ok() {
+            Some(s) => s.clone(),
+            None => continue,
+        };
+        let p1 = holder_session(&issued, fmt, &[PresentArgs::plain(select_all(&claims).as_object().cloned().unwrap_or_default())]);
+        let p1_text = match p1.calls.first().and_then(|c| c.out.ok()) {
+            Some(p) => p.clone(),
+            None => continue,
+        };
+        let sels: Vec<Value> = vec![json!({"a": true, "c": true}), json!({"f": true, "g": true}), json!({"b": true, "d": true}), json!({"a": true, "g": true}), json!({"c": true}), json!({}), json!({"a": true, "c": true})];
+        let calls: Vec<PresentArgs> = sels.iter().map(|s| PresentArgs::plain(s.as_object().cloned().unwrap())).collect();
+        let shared = holder_session(&p1_text, fmt, &calls);
+        ctx.impl_calls += 3 + calls.len();
+        for (j, sel) in sels.iter().enumerate() {
+            let direct = holder_session(&issued, fmt, &[calls[j].clone()]);
+            ctx.impl_calls += 2;
+            ctx.evaluations += 1;
+            ctx.oracle_checks += 1;
+            ctx.count("stream.one_narrowing_holder_many_calls");
+            let case = json!({"one_narrowing_holder": {"fmt": fmt.name(), "call": j, "selections": sels, "strategy": if k % 2 == 0 { "all" } else { "top" }, "decoy": a.decoy}});
+            let (x, y) = (discl(&direct, 0, fmt), discl(&shared, j, fmt));
+            if x.is_some() && same(&x, &y) {
+                ctx.nontrivial(&case);
+            } else {
+                ctx.violation("oracle", "present", &format!("call {} on one holder built from a presentation: the disclosures differ from selecting {} directly", j, sel), case,
+                              json!({"disclosures": y.map(|v| v.iter().map(|d| decode_disclosure(d)).collect::<Vec<_>>())}), json!({"disclosures": x.map(|v| v.iter().map(|d| decode_disclosure(d)).collect::<Vec<_>>())}));
+            }
+        }
     }
 }
